@@ -109,17 +109,22 @@ def regime (thrSmall thrMedium size : Nat) (blasOk : Bool) : Regime :=
   else if size < thrMedium || !blasOk then .fallback
   else .blas
 
-/-- `out.data[:] = a * x1.data + b * x2.data` (right-hand side evaluated first). -/
+/-- The small-size branch: `out.data[:] = a * x1.data + b * x2.data` (right-hand side
+evaluated first). -/
 def direct (A : Args) (a b : K) (m : Mem K) : Mem K :=
   m.write A.out (fun i => a * m A.x1 i + b * m A.x2 i)
 
-/-- Whole `_lincomb_impl`. `fbGuard` is the guard flag extracted from `fallback_axpy`. -/
-def lincombImpl (thrSmall thrMedium : Nat) (fbGuard : Bool) (prog : Stmt)
+/-- Whole `_lincomb_impl`. `fbGuard` is the guard flag extracted from `fallback_axpy`;
+`zeroGuard` says whether `if a == 0 and b == 0: out.data[:] = 0; return` precedes the regime
+selection (both extracted from the source). -/
+def lincombImpl (thrSmall thrMedium : Nat) (fbGuard : Bool) (zeroGuard : Bool) (prog : Stmt)
     (size : Nat) (blasOk : Bool) (A : Args) (a b : K) (m : Mem K) : Option (Mem K) :=
-  match regime thrSmall thrMedium size blasOk with
-  | .small => some (direct A a b m)
-  | .fallback => run fbGuard prog 3 A a b m
-  | .blas => run false prog 3 A a b m
+  if zeroGuard && decide (a = 0) && decide (b = 0) then some (m.write A.out (fun _ => 0))
+  else
+    match regime thrSmall thrMedium size blasOk with
+    | .small => some (direct A a b m)
+    | .fallback => run fbGuard prog 3 A a b m
+    | .blas => run false prog 3 A a b m
 
 end
 
